@@ -16,7 +16,11 @@
    matches w[i+1..j] *inside* w (so ^ $ \b see the real context).  Lang(r, K) is
    the set of words of length <= K matched from 0 to Len(w) (anchored match).
    TrueMin / TrueMax are the structural length bounds (Inf = -1), exact for
-   expressions without assertions; ModelSane checks them against Lang.
+   expressions without assertions and without an empty class ("nomatch", written
+   [^\x00-\x{10FFFF}]); SaneFor checks them against Lang for every expression that
+   is generated (the runner refuses to go on when the oracle contradicts itself).
+   A non-capturing group is not a node of its own: the concrete syntax puts (?:...)
+   around every operand.
 
    TLC enumerates expressions with the builder state machine below (Spec) or
    draws random deeper ones (GenSpec, -simulate) and prints one JSON line per
@@ -35,7 +39,7 @@ CONSTANTS Sigma,        \* alphabet (one-letter strings)
 VARIABLES r, d
 
 Inf == -1
-WordChars == {"a", "b", "A", "B"}
+\* every letter used (a b A B) is a word character for \b
 SwapCase(c) == CASE c = "a" -> "A" [] c = "A" -> "a" [] c = "b" -> "B" [] c = "B" -> "b" [] OTHER -> c
 
 \* ---------------------------------------------------------------- constructors
@@ -251,8 +255,8 @@ CoreUn     == {Star, Plus, Quest, Rep(2, 2)}
 Atoms(Lv, Us) == Lv \cup {Un(u, x) : u \in Us, x \in Lv}
 
 \* quick tier
-QCoreInit  == Atoms({LitA, LitB}, CoreUn)
-QCorePool  == QCoreInit \cup {Cls, Un(Plus, Cls)}
+QCoreInit  == Atoms({LitA, LitB}, {Star, Plus, Quest})
+QCorePool  == Atoms({LitA}, CoreUn) \cup {LitB, Cls}
 \* case folding needs an alphabet with both cases:  Sigma = {"a", "A"}.  No literal "A": the parser of
 \* rsc.io/binaryregexp factors  A|(?i:a)x  into  A(?:|x)  (Regexp.Equal ignores the fold flag), so the
 \* engine itself deviates from regex semantics there (seen by the harness' engine check).
@@ -264,5 +268,7 @@ TCoreUn    == CoreUn \cup {StarZ, PlusZ, QuestZ}
 DeepInit   == {LitA, LitB, Un(Star, LitA), Un(Quest, LitA), Un(Plus, LitA)}
 DeepUn     == {Star, Plus, Quest}
 \* random generator
-SimPool    == Atoms(AllLeaves, AllUn)
+SimLeaves  == {LitA, LitB, Cls, Dot, FoldA}
+SimPool    == Atoms(SimLeaves, AllUn) \cup {Eps, Bol, Eol, Wb, NoM}       \* mostly letters
+SimPoolAll == Atoms(AllLeaves, AllUn)                                     \* every leaf equally likely
 =============================================================================
